@@ -6,8 +6,8 @@ load); the model's answer is compared with what the real run left behind (status
 conflict count, both trees, archive entries).  The property oracles are evaluated on the real
 before/after states.
 """
-import json, os, shutil
-from bbox import Sandbox, Rng, blake3_hex, hexs, HOST
+import json, os, shutil, subprocess
+from bbox import Sandbox, Rng, blake3_hex, hexs, HOST, CLI_BIN
 
 CONTENTS = [b"one\n", b"two two\n", b"3", b"", b"four-four-four-four\n", b"\x00\xff\x00five", b"six" * 50]
 PATHS = ["p", "q", "d/r", "d/e/s", "t.txt", "a b", "d.x"]
@@ -177,6 +177,54 @@ def apply_fault(sb, kind, rnd):
     return None
 
 
+# root-name pairs that a sloppy pair identity conflates: invalid UTF-8 differing in one byte (lossy decoding), Unicode
+# normal forms, letter case, runs of spaces, a trailing dot, an invisible character
+PAIR_NAMES = [(b"caf\xe9", b"caf\xe8"), (b"a\xffb", b"a\xfeb"), ("e\u0301t\u00e9".encode(), "\u00e9te\u0301".encode()),
+              (b"Dir", b"dir"), (b"x y", b"x  y"), (b"p.", b"p"), (b"q", "q\u200b".encode()), (b"ab", b"a")]
+
+
+def pair_identity_section(pid, res, count):
+    """C06/C07: the record of one root pair is never taken for another pair's. The archive's name must be
+    blake3(canon(A) NUL canon(B)) over the exact path BYTES (the model of pair identity), and a first run on a pair
+    whose root names differ from an already-synced pair's only in bytes a lossy comparison conflates must be in
+    SAFE no-base mode: a one-sided file whose content the OTHER pair's record lists at that path is created, not deleted."""
+    ndis = 0
+    for n1, n2 in PAIR_NAMES:
+        with Sandbox(pid) as sb:
+            base = os.fsencode(sb.dir)
+            roots = {}
+            for tag, nm in (("1", n1), ("2", n2)):
+                a, b = os.path.join(base, nm, b"A"), os.path.join(base, nm, b"B")
+                os.makedirs(a); os.makedirs(b)
+                roots[tag] = (a, b)
+            a1, b1 = roots["1"]; a2, b2 = roots["2"]
+            for r_ in (a1, b1):
+                with open(os.path.join(r_, b"notes.txt"), "wb") as f:
+                    f.write(b"shared template\n")
+            env = sb.env
+            r1 = subprocess.run([os.fsencode(CLI_BIN), b"bisync", a1, b1], env=env, cwd=sb.dir, stdout=subprocess.PIPE, stderr=subprocess.PIPE)
+            files = [f for f in sb.archive_files() if f.endswith(".json")]
+            want = blake3_hex([os.path.realpath(a1) + b"\0" + os.path.realpath(b1)])[0]
+            count("pair-identity/probes")
+            rep = {"root_names": [n1.hex(), n2.hex()], "archive_files": files, "expected_stem": want, "rc1": r1.returncode}
+            if files != [want + ".json"]:
+                ndis += 1
+                res.setdefault("pair_disagreements", []).append(rep)
+            with open(os.path.join(a2, b"notes.txt"), "wb") as f:
+                f.write(b"shared template\n")
+            r2 = subprocess.run([os.fsencode(CLI_BIN), b"bisync", a2, b2], env=env, cwd=sb.dir, stdout=subprocess.PIPE, stderr=subprocess.PIPE)
+            rep2 = dict(rep, rc2=r2.returncode, stderr2=r2.stderr.decode("utf-8", "replace")[-300:],
+                        history=[f"pair 1 = <{n1!r}>/A,B both hold notes.txt; bisync", f"pair 2 = <{n2!r}>/A holds the same notes.txt, B is empty; bisync"])
+            ok_a = os.path.exists(os.path.join(a2, b"notes.txt")); ok_b = os.path.exists(os.path.join(b2, b"notes.txt"))
+            if b"SAFE no-base mode" not in r2.stderr:
+                res["violations"].append(("foreign-archive-trusted", "the first run on a root pair trusted the record of ANOTHER pair (root names differing only in bytes a lossy comparison conflates)", rep2))
+            if not (ok_a and ok_b):
+                res["violations"].append(("file-removed-under-foreign-archive", f"notes.txt existed on side A of a never-synced pair and is {'missing on A' if not ok_a else 'not created on B'} after the run", rep2))
+    if ndis:
+        res["broken"].append(f"{pid}/corr/pair-identity: the archive file name differs from blake3(canon(A) NUL canon(B)) over the exact path bytes for {ndis} of {len(PAIR_NAMES)} root pairs")
+    return ndis
+
+
 def run(pid, tier, seed, rundir, model_run):
     rng = Rng(seed ^ 0xC02)
     thorough = tier == "thorough"
@@ -338,6 +386,7 @@ def run(pid, tier, seed, rundir, model_run):
                                               {"history": history_txt, "main": final_main, "variant": fin}))
                 if run_variant:
                     count("variant/" + run_variant)
+    pair_dis = pair_identity_section(pid, res, count) if pid in ("C07", "C06") else 0
     ops_f.close()
     with open(os.path.join(rundir, "impl.txt"), "w") as f:
         f.write("\n".join(impl_lines) + ("\n" if impl_lines else ""))
